@@ -135,7 +135,7 @@ pub fn run_c03(out: &mut Out, tier: &str, seed: u64) {
 
 pub fn run_c06(out: &mut Out, tier: &str, seed: u64) {
     let mut rng = Rng::new(seed);
-    let ndocs = if tier == "thorough" { 20000 } else { 2500 };
+    let ndocs = if tier == "thorough" { 20000 } else { 1200 };
     let cfg = Cfg { dup_free: false, ..Cfg::default() };
     for _ in 0..ndocs {
         let gt = gen::gen_doc(&mut rng, &cfg);
